@@ -39,6 +39,10 @@ EXTRA_FILES = {
     'include/unifex/inplace_stop_token.hpp': ['C09', 'C10', 'C08'], 'source/inplace_stop_token.cpp': ['C09', 'C08'],
     'include/unifex/v1/async_manual_reset_event.hpp': ['C08', 'C09'], 'source/async_manual_reset_event_v1.cpp': ['C08', 'C09'],
     'include/unifex/stop_on_request.hpp': ['C03'],
+    # the debug build wraps every receiver in _inject::_rcvr_wrapper; async_pass / v2 mutex / create_basic_sender complete
+    # through completion_forwarder
+    'include/unifex/tracing/inject_async_stack.hpp': ['C01', 'C05', 'C13', 'C17'],
+    'include/unifex/detail/completion_forwarder.hpp': ['C19', 'C15', 'C16', 'C11'],
 }
 TRIVIAL = {'move', 'forward', 'addressof', 'get', 'as_const', 'declval', 'operator*', 'operator->', 'static_cast', 'size', 'begin', 'end',
            'operator()', 'operator bool', 'get_stop_token', 'get_scheduler', 'get_allocator'}
